@@ -208,6 +208,25 @@ CHECKS = {
              'code); a server returning more than requested is outside the '
              'fault model',
         design='3/C12'),
+    'C13': dict(
+        level='exploration',
+        technique='runtime monitoring with a filesystem monitor (Python '
+                  'audit hook + os.stat-family wrappers, realpath at event '
+                  'time, enforcing containment) under hostile SFTP request '
+                  'histories, hostile directory listings and hostile SCP '
+                  'record sequences',
+        text='Every filesystem call made while the chrooted SFTP server '
+             'handles raw request histories (structure built through the '
+             'protocol, then all path-carrying request types over a '
+             'traversal grammar), and every modifying call made during '
+             'recursive SFTP get/mget and SCP downloads from hostile peers, '
+             'is resolved to where the kernel would go and must lie inside '
+             'the root / the destination; secrets outside must never be '
+             'returned and nothing outside may change.',
+        note='trusted: vf/fsmon.py (audit events + wrappers); modifying '
+             'calls outside the allowed root are recorded and then blocked, '
+             'because the hostile workload runs in the checking process',
+        design='3/C13'),
     'C15': dict(
         level='exploration',
         technique='runtime monitoring by round-trip and differential '
@@ -226,7 +245,7 @@ CHECKS = {
              'reference file of the same container',
         design='3/C15'),
     'C16': dict(
-        level='exploration',
+        level='fault_enumeration',
         technique='runtime monitoring: boolean verify oracles over '
                   'systematic single-byte edits, certificate validity grids '
                   'on a substituted clock, hand-built certificates, SSHSIG '
